@@ -77,8 +77,12 @@ template <class P> static void run_@K@(const std::string& op, int shape, int dst
   if (op == "ctor") { ctor_shape_@K@<P>(shape, os, a, b, c, s); return; }
   if (op == "helper") { helper(shape, d, a, b, os); return; }
   P& D = dst == 0 ? d : dst == 1 ? a : dst == 2 ? b : c;
+  // "@K@" == "polyps": the destination handle shares its payload with another live handle when the statement runs
+  P* keep = (std::string("@K@") == "polyps") ? new P(D) : 0;
+  std::ostringstream before; if (keep) show(before, *keep);
   assign_shape_@K@<P>(shape, D, a, b, c, s);
   show(os, d); os << "| "; show(os, a); os << "| "; show(os, b); os << "| "; show(os, c);
+  if (keep) { std::ostringstream after; show(after, *keep); if (after.str() != before.str()) os << " SHARED-COPY-CHANGED"; delete keep; }
 }
 '''
 
@@ -113,6 +117,7 @@ int main() {
         s += '    if (!done && w == %d && n == %d && nm == %d) { done = true; ' % (w, n, nm)
         if "poly" in fam: s += 'if (kind == "poly") run_poly<nfl::poly<%s,%d,%d> >(op, shape, dst, v, os); ' % (tn[w], n, nm)
         if "polyp" in fam: s += 'if (kind == "polyp") run_polyp<nfl::poly_p<%s,%d,%d> >(op, shape, dst, v, os); ' % (tn[w], n, nm)
+        if "polyps" in fam: s += 'if (kind == "polyps") run_polyps<nfl::poly_p<%s,%d,%d> >(op, shape, dst, v, os); ' % (tn[w], n, nm)
         s += "}\n"
     s += '    if (!done) os << "noconfig";\n    os << "\\n";\n  }\n  fputs(os.str().c_str(), stdout);\n  return 0;\n}\n'
     return s
@@ -142,8 +147,8 @@ def build(cfgs, tier):
             cs = [c for c in cfgs if c[0] == w and c[1] >= lanes(b, w)]
             if not cs: continue
             fam, names = {}, {}
-            for K in ("poly", "polyp"):
-                acc = tab["%s/%d/%s" % (b, w, K)]
+            for K in ("poly", "polyp", "polyps"):
+                acc = tab["%s/%d/%s" % (b, w, "polyp" if K == "polyps" else K)]
                 fam[K] = ([(i, s) for i, s in enumerate(SHAPES) if acc[s[0]]], [(i, s) for i, s in enumerate(BOOLS) if acc[s[0]]])
                 names[K] = {s[0] for s in SHAPES + BOOLS if acc[s[0]]}
             src = gen_source(fam, cs)
